@@ -152,7 +152,65 @@ func (s *h) releaseFx() {
 	s.slow.mu.Unlock()
 }
 
-const parkProbe = 25 * time.Millisecond
+// parkProbe bounds the waits that decide "this goroutine is held up by the parked request".  The decision itself does not
+// rest on the timer on the unchanged code: blockedIn observes the goroutine waiting for the breaker's lock inside the named
+// method (deterministic, whatever the CPU load); the timer only ends the wait on code where neither an answer nor that
+// wait shows up.
+const parkProbe = 250 * time.Millisecond
+
+// blockedIn counts the goroutines that are waiting for a sync.RWMutex inside cbreaker.(*CircuitBreaker).<method>.
+func blockedIn(method string) int {
+	buf := make([]byte, 1<<20)
+	for {
+		n := runtime.Stack(buf, true)
+		if n < len(buf) {
+			buf = buf[:n]
+			break
+		}
+		buf = make([]byte, 2*len(buf))
+	}
+	cnt := 0
+	for _, g := range strings.Split(string(buf), "\n\n") {
+		if strings.Contains(g, "cbreaker.(*CircuitBreaker)."+method+"(") && strings.Contains(g, "sync.(*RWMutex).") {
+			cnt++
+		}
+	}
+	return cnt
+}
+
+// waitAnswerOrBlocked waits until done() reports an answer (true), or n goroutines are seen blocked in method (false),
+// or parkProbe has passed (false).
+func waitAnswerOrBlocked(done func() bool, method string, n int, bound ...time.Duration) bool {
+	d := parkProbe
+	if len(bound) > 0 {
+		d = bound[0]
+	}
+	deadline := time.Now().Add(d)
+	for i := 0; ; i++ {
+		if done() {
+			return true
+		}
+		if blockedIn(method) >= n || time.Now().After(deadline) {
+			return done()
+		}
+		if i < 20 {
+			runtime.Gosched()
+		} else {
+			time.Sleep(200 * time.Microsecond)
+		}
+	}
+}
+
+func chanClosed(c chan struct{}) func() bool {
+	return func() bool {
+		select {
+		case <-c:
+			return true
+		default:
+			return false
+		}
+	}
+}
 
 // parkLogger is given to the breaker through the Logger option; its Warn parks a request on demand.
 type parkLogger struct{ s *h }
@@ -253,7 +311,7 @@ func (s *h) state() string {
 // quiesce waits until every goroutine launched by the breaker (side effects) has run to completion:
 // what remains is main, the goroutine of the current op and the blocked in-flight requests.
 func (s *h) quiesce() string {
-	deadline := time.Now().Add(2 * time.Second)
+	deadline := time.Now().Add(4 * time.Second)
 	want := func() int {
 		n := 2 + len(s.flights)
 		if s.slow != nil {
@@ -345,16 +403,27 @@ func (s *h) op(f []string, line *string) string {
 				defer close(fl.done)
 				s.cb.ServeHTTP(fl.rec, req)
 			}()
-			select {
-			case <-fl.entered:
-				return "pass"
-			case <-fl.done:
+			entered := false
+			answered := waitAnswerOrBlocked(func() bool {
+				select {
+				case <-fl.entered:
+					entered = true
+					return true
+				case <-fl.done:
+					return true
+				default:
+					return entered
+				}
+			}, "isStandby", 1)
+			if answered {
+				if entered {
+					return "pass"
+				}
 				delete(s.flights, f[1])
 				if s.isFallback(fl.rec) {
 					return "fallback"
 				}
 				return fmt.Sprintf("lost code=%d", fl.rec.Code)
-			case <-time.After(parkProbe):
 			}
 			pid := s.parkedID
 			pf := s.flights[pid]
@@ -458,11 +527,12 @@ func (s *h) op(f []string, line *string) string {
 		if s.parkedID != "" {
 			// does the parked request hold the breaker's lock?  String() takes the read lock.
 			probe := make(chan string, 1)
-			go func() { probe <- s.state() }()
-			select {
-			case <-probe:
+			probed := make(chan struct{})
+			go func() { probe <- s.state(); close(probed) }()
+			if waitAnswerOrBlocked(chanClosed(probed), "String", 1) {
 				// no: the completion is not held up by it; it stays parked
-			case <-time.After(parkProbe):
+				<-probe
+			} else {
 				// yes: nothing can overtake it; it is decided now, before the completion gets the lock
 				pid := s.parkedID
 				pf := s.flights[pid]
@@ -509,26 +579,28 @@ func (s *h) op(f []string, line *string) string {
 		}
 		c1, c2 := hx.Atoi(f[2]), hx.Atoi(f[4])
 		probe := make(chan string, 1)
-		go func() { probe <- s.state() }()
-		select {
-		case <-probe:
+		probed := make(chan struct{})
+		go func() { probe <- s.state(); close(probed) }()
+		if waitAnswerOrBlocked(chanClosed(probed), "String", 1) {
 			return "finish2-lock-not-held"
-		case <-time.After(parkProbe):
 		}
+		// each completing request must be seen waiting for the lock in timeToCheck, i.e. after its metrics.Record
 		s.shadow.Record(c1, clock.Now().UTC().Sub(f1.start))
 		f1.release <- c1
-		select {
-		case <-f1.done:
+		if waitAnswerOrBlocked(chanClosed(f1.done), "timeToCheck", 1, 3*time.Second) {
 			return "finish2-first-not-blocked"
-		case <-time.After(parkProbe):
+		}
+		if blockedIn("timeToCheck") < 1 {
+			return "finish2-inconclusive"
 		}
 		s.shadow.Record(c2, clock.Now().UTC().Sub(f2.start))
 		orc := s.oracle()
 		f2.release <- c2
-		select {
-		case <-f2.done:
+		if waitAnswerOrBlocked(chanClosed(f2.done), "timeToCheck", 2, 3*time.Second) {
 			return "finish2-second-not-blocked"
-		case <-time.After(parkProbe):
+		}
+		if blockedIn("timeToCheck") < 2 {
+			return "finish2-inconclusive"
 		}
 		pid := s.parkedID
 		pf := s.flights[pid]
